@@ -190,6 +190,9 @@ func genConnScript(rng *rand.Rand, jg *JGen, tag string, maxCalls int, allowFail
 				ifc = c01SharedArgs[4+rng.Intn(3)]
 			}
 			cs.Calls = append(cs.Calls, GenCall{Method: ifc + ".M", Flags: fl, Script: genScript(rng, jg, id, false)})
+		case k < 18 && rng.Intn(3) == 0:
+			// valid JSON that fails to decode as a call after flags were seen: ends the connection, must leave nothing behind
+			cs.Calls = append(cs.Calls, GenCall{Raw: c10Poison[rng.Intn(len(c10Poison))]})
 		case k < 18 && rng.Intn(2) == 0:
 			// frames without a method member: answered like a call without method
 			cs.Calls = append(cs.Calls, GenCall{Raw: c04NoMethod[rng.Intn(len(c04NoMethod))]})
